@@ -112,6 +112,32 @@ class ModeStatistics:
         """Dimensionality of parameter space."""
         return self.means.shape[1]
 
+    @staticmethod
+    def _fit_mode(u_resampled: np.ndarray, dof_fallback: float):
+        """
+        Fit one Student-t mode to resampled particles.
+
+        Resampling a few heavily weighted particles can return (almost) only
+        duplicates, for which the Student-t fit is singular. Such a degenerate
+        sample falls back to its mean and a slightly regularised covariance
+        (unit-hypercube coordinates) with the fallback degrees of freedom.
+        """
+        try:
+            mean, covariance, dof = fit_mvstud(u_resampled)
+            np.linalg.cholesky(covariance)
+        except np.linalg.LinAlgError:
+            n_dim = u_resampled.shape[1]
+            mean = np.mean(u_resampled, axis=0)
+            covariance = np.atleast_2d(np.cov(u_resampled.T, bias=True))
+            covariance = covariance + 1e-10 * np.eye(n_dim)
+            dof = dof_fallback
+
+        # Apply fallback for non-finite DOF
+        if ~np.isfinite(dof):
+            dof = dof_fallback
+
+        return mean, covariance, dof
+
     @classmethod
     def from_particles(
         cls,
@@ -186,11 +212,7 @@ class ModeStatistics:
             u_resampled = u_cluster[idx_resample]
 
             # Fit multivariate Student-t distribution
-            mean, covariance, dof = fit_mvstud(u_resampled)
-
-            # Apply fallback for non-finite DOF
-            if ~np.isfinite(dof):
-                dof = dof_fallback
+            mean, covariance, dof = cls._fit_mode(u_resampled, dof_fallback)
 
             means.append(mean)
             covariances.append(covariance)
@@ -259,11 +281,7 @@ class ModeStatistics:
         u_resampled = u[idx_resample]
 
         # Fit multivariate Student-t distribution
-        mean, covariance, dof = fit_mvstud(u_resampled)
-
-        # Apply fallback for non-finite DOF
-        if ~np.isfinite(dof):
-            dof = dof_fallback
+        mean, covariance, dof = cls._fit_mode(u_resampled, dof_fallback)
 
         return cls(
             means=mean.reshape(1, -1),
